@@ -19,6 +19,7 @@ type Script struct {
 	Extra  []*Term // quantified axioms as terms (relevant to at least one goal)
 	extraSyms []map[string]bool // specification symbols of each axiom in Extra
 	Cover  *Term
+	AxiomNames []string // origins of the global axioms relevant to the goals
 	header string
 }
 
@@ -109,6 +110,17 @@ func (c *FnCtx) buildScript() *Script {
 		if used[i] {
 			s.Extra = append(s.Extra, ax)
 			s.extraSyms = append(s.extraSyms, axSyms[i])
+			if n := c.axiomName[i]; n != "" {
+				dup := false
+				for _, x := range s.AxiomNames {
+					if x == n {
+						dup = true
+					}
+				}
+				if !dup {
+					s.AxiomNames = append(s.AxiomNames, n)
+				}
+			}
 		}
 	}
 	_ = collect
